@@ -21,14 +21,14 @@ import (
 // FinalSourceAddr equals the reference concatenation.
 
 type c11Base struct {
-	kind   string // local | remote | registry | final
-	str    string
-	pkg    string // printed package (remote / registry)
-	ver    string
-	sub    []string      // remote/registry sub-path
-	local  ref.LocalPath // for local bases
-	src    sourceaddrs.Source
-	final  sourceaddrs.FinalSource
+	kind  string // local | remote | registry | final
+	str   string
+	pkg   string // printed package (remote / registry)
+	ver   string
+	sub   []string      // remote/registry sub-path
+	local ref.LocalPath // for local bases
+	src   sourceaddrs.Source
+	final sourceaddrs.FinalSource
 }
 
 type c11Rel struct {
